@@ -6,7 +6,7 @@
    connection counts over long runs; the race detector over the concurrent loops) - partial. *)
 From Coq Require Import ZArith NArith Bool List.
 From Mysync Require Import Gtid.Interval Gtid.GtidSet Pure.Quorum Base.Prog Base.ProgFacts Base.Config
-  Procs.NodeOps Procs.ActiveNodes Procs.Switchover Procs.Manager Procs.Recovery Proofs.ManagerProofs Proofs.RecoveryProofs.
+  Procs.NodeOps Procs.ActiveNodes Procs.Switchover Procs.Repair Procs.Manager Procs.Recovery Proofs.RepairProofs Proofs.ManagerProofs Proofs.RecoveryProofs.
 Import ListNotations.
 Open Scope Z_scope.
 
@@ -32,10 +32,26 @@ Theorem C20_candidate_never_crashes : forall m, nopanic (state_candidate m).
 Proof. exact state_candidate_nopanic. Qed.
 Print Assumptions C20_candidate_never_crashes.
 
-(* what still crashes in the code (known findings): "never crashes" is REFUTED for these two procedures *)
-Theorem C20_change_master_to_itself_refuted : forall cfg h, runs (perform_change_master cfg h h) [] (Panicked 2079).
+(* switching optimisation off at the start of a switchover (after the repair 923b14a) cannot crash for a
+   registered old master, whatever hosts the published active list and the optimisation registry name *)
+Theorem C20_optimisation_shutoff_never_crashes : forall master nodes, nopanic (opt_disable_all_k true master nodes).
+Proof. exact disable_all_nopanic. Qed.
+Print Assumptions C20_optimisation_shutoff_never_crashes.
+
+(* enabling semi-sync on joining replicas (after the repair becaa66) cannot crash, whatever the cluster view
+   holds for them or for the recorded master *)
+Theorem C20_semisync_join_never_crashes : forall env ms l w active, nopanic (enable_loop env ms l w active).
+Proof. exact enable_loop_nopanic. Qed.
+Print Assumptions C20_semisync_join_never_crashes.
+
+(* performChangeMaster(host, host) panics deliberately ... *)
+Theorem C20_change_master_to_itself_panics : forall cfg h, runs (perform_change_master cfg h h) [] (Panicked 2079).
 Proof. exact change_master_to_itself_panics. Qed.
-Print Assumptions C20_change_master_to_itself_refuted.
-Theorem C20_unknown_candidate_refuted : forall master nodes, exists tr, runs (opt_disable_all_k false master nodes) tr (Panicked 50114).
-Proof. exact disable_all_with_unknown_host_panics. Qed.
-Print Assumptions C20_unknown_candidate_refuted.
+Print Assumptions C20_change_master_to_itself_panics.
+(* ... but (after the repair bee82ca) the cascade repair never gets there: whatever the stream_from
+   configuration (self-references, cycles, dangling or empty sources) and whatever the servers answer,
+   no run of repairCascadeNode ends in that panic *)
+Theorem C20_cascade_repair_never_repoints_to_itself : forall cfg env topo h ns la tr s,
+  h <> re_master env -> runs (repair_cascade_node cfg env topo h ns la) tr (Panicked s) -> s <> 2079.
+Proof. exact cascade_repair_no_self_repoint_panic. Qed.
+Print Assumptions C20_cascade_repair_never_repoints_to_itself.
